@@ -233,9 +233,14 @@ func C14(r *simkit.Run) {
 			stmts = fmt.Sprintf("CREATE TABLE %s (id int, v text); INSERT INTO %s VALUES (1,'a'),(2,'b')", name, name)
 		case "view-only":
 			stmts = "CREATE VIEW only_view AS SELECT 1 AS one"
-			if t.Chance("view-with-empty-name", 1, 4) {
+			switch t.Weighted("view-name", 2, 1, 1) {
+			case 1:
 				stmts = "CREATE VIEW \"\" AS SELECT 1 AS one"
 				r.Probe("view-with-empty-name")
+			case 2:
+				// A user's view whose name merely starts like SQLite's internal objects.
+				stmts = fmt.Sprintf("CREATE VIEW %s AS SELECT 1 AS one", []string{"sqlite3_compat", "sqlitestudio_meta", "sqliteview"}[t.Draw("internal-like-view-name", 3)])
+				r.Probe("view-named-like-internal")
 			}
 		case "virtual-tables":
 			// Full-text and R*Tree tables: virtual tables plus the shadow tables that hold their rows.
